@@ -103,3 +103,11 @@ def fam_block_lonely(p, q, ra, rb, labels=(None,)):
     b = [[0.005 + 0.01 * j, 10.005 + 0.01 * j, lab] for j in range(q)] + \
         [[1000.0 * (f + 1) + 500, 1000.0 * (f + 1) + 510, lab] for f in range(rb)]
     return {"annotators": [["a0", a], ["a1", b]]}
+
+
+def fam_sparse(sizes, step=4.0, dur=2.0, labels=("x", "y")):
+    """Many units per annotator but few candidates: annotator i's j-th unit is [j*step + i/2, j*step + i/2 + dur], so only
+    units of (nearly) the same rank are close.  The pairwise tables are large (prod of sizes) while the candidate
+    list stays linear - sizes are chosen so that cumulative table sizes cross 2**15 and 2**16."""
+    return {"annotators": [[f"a{i}", [[j * step + i * 0.5, j * step + i * 0.5 + dur, labels[(i + j) % len(labels)]]
+                                      for j in range(k)]] for i, k in enumerate(sizes)]}
